@@ -94,11 +94,26 @@ def classify(case, obs, why):
     culprits = set(asap_pos_leaves(case["nested"]))
     a = leaf_view(case["flat"], obs["flat"])["events"]
     b = leaf_view(case["nested"], obs["nested"])["events"]
-    for x, y in zip(a, b):
-        if x != y:
-            # the first difference must be the early re-run of such a doer (or the event it displaced)
-            return "D35" if (x[1] in culprits or y[1] in culprits) else None
-    return "D35" if len(a) != len(b) else None
+    first = next(((x, y) for x, y in zip(a, b) if x != y), None)
+    if first is not None and not (first[0][1] in culprits or first[1][1] in culprits):
+        return None          # the first difference must be the early re-run of such a doer (or the event it displaced)
+    # ... and both runs must be EXACTLY what D35 predicts: the flat run follows the documented model, the
+    # nested run the documented model with asap base `tyme + 0` for the grouped doers
+    flat, nested = case["flat"], case["nested"]
+    if flat.get("limit") or sc.has_kbd(flat):
+        pass
+    par = sc.parents(nested)
+    asap = {i: 0.0 for i in sc.leaf_ids(nested) if par.get(i, 0) != 0}
+    exp_f, ft_f, done_f = sc.reference_flat(flat)
+    exp_n, ft_n, done_n = sc.reference_flat(flat, asap_tock=asap)
+    leaves = set(sc.leaf_ids(flat))
+    got_f = [(i, sc.fl(h)) for k, i, h in obs["flat"]["trace"] if k == "Recur" and i in leaves]
+    got_n = [(i, sc.fl(h)) for k, i, h in obs["nested"]["trace"] if k == "Recur" and i in leaves]
+    if done_f is None or done_n is None:
+        return None
+    if got_f == exp_f and got_n == exp_n and ft_f == sc.fl(obs["flat"]["tyme"]) and ft_n == sc.fl(obs["nested"]["tyme"]):
+        return "D35"
+    return None
 
 
 def asap_pos_leaves(prog):
